@@ -227,6 +227,12 @@ pub fn lane_random_from(tier: Tier, seed: u64, start: usize, n: usize, tag: &str
                     if !cram && g.chance(25) {
                         d.fence_trailing_space = true;
                     }
+                    if !cram && g.chance(25) {
+                        d.fence_wide_gap = true;
+                    }
+                    if !cram && g.chance(20) {
+                        d.long_closing_fence = true;
+                    }
                     n_procs += if script { 1 } else { d.tests.len() as u32 };
                     // shared set-up / tear-down documents
                     if !cram && !script && g.chance(20) {
@@ -564,6 +570,9 @@ pub fn lane_skip(seed: u64) -> Vec<Scenario> {
                         }
                         let (f, ext) = if mode == "cram" { (Format::Cram, "t") } else { (Format::Md, "md") };
                         let mut a = doc(&format!("a/skipper.{}", ext), f, tests);
+                        // (how the fences are written must not matter)
+                        a.fence_wide_gap = pos == 1;
+                        a.long_closing_fence = pos == 2;
                         if how == How::CustomDefaults || how == How::EightyButCustomDefaults {
                             a.defaults.skip_code = Some(33);
                         }
@@ -917,9 +926,13 @@ pub fn lane_runs(seed: u64) -> Vec<Scenario> {
             }
             let mut sim = base_sim(g.rng.next_u64());
             sim.faults = faults.clone();
+            let long_fences = oname.len() % 3 == 0;
             let mk = |g: &mut G, sim: &mut SimScenario, path: &str, f: Format, plans: &[Plan]| {
                 let tests = plans.iter().map(|p| g.test(p, &mut sim.programs)).collect();
-                doc(path, f, tests)
+                let mut d = doc(path, f, tests);
+                d.long_closing_fence = long_fences;
+                d.fence_wide_gap = !long_fences;
+                d
             };
             let pass2 = [Plan::new(Fate::Pass), Plan::new(Fate::Pass)];
             let mut docs = vec![];
